@@ -79,6 +79,14 @@ func TestC14(t *testing.T) {
 		if pickU(t, "legacy?", 6) == 0 {
 			forceLegacy(t, c)
 		}
+		if pickU(t, "reloadhistory", 3) == 0 {
+			// another trie (same encoder, with values) to be loaded into the same object afterwards
+			o := genTrieCase(t, trieGenOpt{encs: []string{c.Enc}, needVals: true, fams: []famWeight{{"K1", 3}, {"K2", 1}, {"K3", 1}, {"K6", 1}}})
+			o.Enc = c.Enc
+			o.Vals, o.VMode = genVals(t, len(o.Keys), o.Enc, false)
+			o.Load = ""
+			c.Pool = []*Case{o}
+		}
 		genExtra(t, c)
 		return c
 	})
